@@ -380,6 +380,14 @@ def str_format(eng, args, kwargs, st, node):
     tmpl = args[0]
     out = []
     if tmpl.t.lit is None:
+        cat = eng.ctx.__dict__.get('strcat', {}).get(tmpl.t.s)
+        rep = eng.ctx.__dict__.get('repeat_of', {})
+        if cat is not None and cat[0].s in rep and '{' not in rep[cat[0].s] and '}' not in rep[cat[0].s]:
+            # padding (a brace-free literal repeated) + a literal template: the padding is copied, the rest is formatted
+            rest = str_format(eng, [VStr(cat[1])] + list(args[1:]), kwargs, st, node)
+            if len(rest) == 1 and isinstance(rest[0][0], VStr):
+                return [(VStr(Concat(cat[0], rest[0][0].t)), rest[0][1])]
+    if tmpl.t.lit is None:
         # the template contains text the function does not control
         for cls in (ValueError, KeyError, IndexError):
             s2 = st.copy()
@@ -400,6 +408,16 @@ def str_format(eng, args, kwargs, st, node):
                 pieces.append(StrV(lit))
             if field is None:
                 continue
+            if spec and not conv and field and not field.isdigit():
+                import re as _re2
+                m_spec = _re2.fullmatch(r'\{(\w+)\}d', spec)
+                v_num = kwargs.get(field)
+                v_wid = kwargs.get(m_spec.group(1)) if m_spec else None
+                if m_spec and isinstance(v_num, VInt) and isinstance(v_wid, VInt):
+                    # '{count:{n_digits}d}': the decimal text of an int right-aligned in a field (uninterpreted py_format_d)
+                    eng.trusted_used.add('builtin:format spec {x:{w}d} (uninterpreted py_format_d(x, w))')
+                    pieces.append(eng.model_app('py_format_d', [v_num.t, v_wid.t], STR))
+                    continue
             if spec or conv:
                 ok = False
                 break
